@@ -65,5 +65,8 @@ Inv_NoStuck == NoStuckTransfer(st)
 (* every claim is paid at most once and users' combined holdings are conserved *)
 Holdings(s, d) == SumIdx([i \in 1..2 |-> s.l1.bal[IF i = 1 THEN "u1" ELSE "u2"][d] + s.l2.bal[IF i = 1 THEN "u1" ELSE "u2"][L2D(d)]], {1, 2}) + InFlight(s, d) + Unpaid(s, d)
 Inv_Holdings == \A d \in L1Denoms : Holdings(st, d) = 8
+Flow(s, o, t) == FlowOver(s, o, t, {"u1", "u2"}, L1Denoms)
+NextOutcome == [e |-> last'.e, ok |-> last'.ok, resp |-> last'.resp, failed |-> last'.failed]
+P_Flow == [][Flow(st, NextOutcome, st')]_vars
 Inv_DrainedOK == Drained(st) => \A d \in L1Denoms : Escrow(st, d) = Supply2(st, d) + SumIdx([i \in 1..Len(st.wds) |-> st.wds[i].amt], {i \in 1..Len(st.wds) : st.wds[i].base = d /\ ~Claimed(st, st.wds[i])})
 =============================================================================
